@@ -318,6 +318,7 @@ func Supervise(self string, chk *Check, tier string, seed int64) int {
 	exit := 0
 	var lines []string
 	nviol := 0
+	flaky := 0
 	var knownLines []string
 	for _, sig := range order {
 		v := bySig[sig]
@@ -335,8 +336,11 @@ func Supervise(self string, chk *Check, tier string, seed int64) int {
 				}
 			}
 			if ok != 5 {
+				// not believed: a violation must fail on every replay. It is reported as a harness
+				// problem (exit 3) unless some other violation of this run does reproduce.
 				fmt.Fprintf(os.Stderr, "HARNESS-NONDETERMINISM: %s reproduced %d/5 times (%s)\n", sig, ok, file)
-				return 3
+				flaky++
+				continue
 			}
 		}
 		nviol++
@@ -358,7 +362,10 @@ func Supervise(self string, chk *Check, tier string, seed int64) int {
 		st := total.Spaces[name]
 		fmt.Fprintf(os.Stderr, "%s/%s: evaluations=%d distinct_nontrivial=%d states=%d transitions=%d exhaustive=%v classes=%v\n", chk.ID, name, st.Evaluations, st.Nontrivial, st.States, st.Transitions, st.Exhaustive, st.Classes)
 	}
-	fmt.Fprintf(os.Stderr, "%s %s: %d violation signature(s), %d known finding(s), %.1fs\n", chk.ID, tier, nviol, len(knownLines), time.Since(start).Seconds())
+	fmt.Fprintf(os.Stderr, "%s %s: %d violation signature(s), %d known finding(s), %d non-reproducing report(s), %.1fs\n", chk.ID, tier, nviol, len(knownLines), flaky, time.Since(start).Seconds())
+	if exit == 0 && flaky > 0 {
+		return 3
+	}
 	return exit
 }
 
